@@ -145,6 +145,41 @@ def bool_switch_edges(term):
     return None
 
 
+def _local_kind(fn, bb, idx, local):
+    """'Ok' / 'Err' / 'Some' / 'None' / 'residual' when the value `local` holds at statement idx of block bb was assigned, on the only
+    live straight-line way to this point, from such a literal or by a `?` residual conversion; else None"""
+    live = reachable(fn, [0])
+    cur, loc = bb, local
+    stmts = fn.blocks[bb]["stmts"][:idx]
+    for _ in range(10):
+        for st in reversed(stmts):
+            if st["k"] == "assign" and st["place"]["local"] == loc:
+                if st["place"]["proj"]:
+                    return None
+                rv = st["rv"]
+                a = rv.get("aggregate") if isinstance(rv, dict) else None
+                if a and a.get("kind") == "adt" and a.get("adt") in ("std::result::Result", "std::option::Option"):
+                    return a.get("variant")
+                u = rv.get("use") if isinstance(rv, dict) and isinstance(rv.get("use"), dict) else None
+                spl = (u.get("move") or u.get("copy")) if u else None
+                if spl and not spl["proj"]:
+                    loc = spl["local"]
+                    continue
+                return None
+        preds = [p for p in fn.preds(cur) if p in live and not fn.blocks[p]["cleanup"]]
+        if len(preds) != 1:
+            return None
+        pt = fn.term(preds[0])
+        if pt["k"] == "call":
+            if pt["dest"]["local"] == loc and not pt["dest"]["proj"]:
+                return "residual" if (pt.get("callee") or "").endswith("FromResidual::from_residual") else None
+        elif pt["k"] != "goto":
+            return None
+        cur = preds[0]
+        stmts = fn.blocks[cur]["stmts"]
+    return None
+
+
 def exit_sites(fn):
     """Classify the places where the return place _0 receives its value.
     Returns list of dict(bb, idx, kind in {'Ok','Err','residual','call','other'}, rv/term)."""
@@ -164,6 +199,11 @@ def exit_sites(fn):
                         kind = a["variant"]
                     else:
                         kind = "adt:" + a["adt"]
+                elif "use" in rv and isinstance(rv["use"], dict):
+                    # `_0 = move r` where r was given a Result/Option literal (or a `?` residual) on the single straight-line way here
+                    pl = rv["use"].get("move") or rv["use"].get("copy")
+                    if pl and not pl["proj"]:
+                        kind = _local_kind(fn, b["id"], i, pl["local"]) or "other"
                 out.append(dict(bb=b["id"], idx=i, kind=kind, rv=rv, line=s.get("line")))
         t = b["term"]
         if t["k"] == "call" and t["dest"]["local"] == 0 and not t["dest"]["proj"]:
